@@ -10,6 +10,11 @@ tier = "quick"
 for a in sys.argv[4:]:
     if a.startswith("--props="): props = a[8:].split(",")
     if a.startswith("--tier="): tier = a[7:]
+only = {}
+for a in sys.argv[4:]:
+    if a.startswith("--only="):  # --only=C05:h_falsy,C04:h_varying.take_last  (restrict a check to matching instances: faster triage)
+        for kv in a[7:].split(","):
+            k, v = kv.split(":", 1); only[k] = v
 pid = name.split("-")[0]
 props = props or [pid]
 V = "/verif"
@@ -33,11 +38,11 @@ try:
     meta["checks"] = {}
     for p in props:
         t0 = time.time()
-        r = sh("./vcheck %s --tier %s --no-evidence" % (p, tier), cwd=V, env=dict(os.environ, VERIF_REPO=sc))
+        r = sh("./vcheck %s --tier %s --no-evidence%s" % (p, tier, (" --only " + only[p]) if p in only else ""), cwd=V, env=dict(os.environ, VERIF_REPO=sc))
         vio = [l for l in r.stdout.splitlines() if l.startswith("VIOLATION")]
         meta["checks"][p] = {"rc": r.returncode, "violations": len(vio), "wall_s": round(time.time() - t0), "summary": r.stdout.splitlines()[0] if r.stdout else r.stderr[-300:],
                              "first": [l for l in r.stdout.splitlines() if "counterexample" in l][:2]}
-        meta["ran"].append("VERIF_REPO=<scratch worktree with patch> ./vcheck %s --tier %s" % (p, tier))
+        meta["ran"].append("VERIF_REPO=<scratch worktree with patch> ./vcheck %s --tier %s%s" % (p, tier, (" --only " + only[p]) if p in only else ""))
 finally:
     sh("git -C /repo worktree remove --force %s" % sc)
 ok = meta.get("demo_clean_rc") == 0 and meta.get("demo_patched_rc") not in (0, None) and ("passed" in meta.get("suite_patched", "passed") and "failed" not in meta.get("suite_patched", ""))
